@@ -61,8 +61,11 @@ func vp_C15_make_join() {
 	pl := vpMkEvent(ver, "$pl:x", room, vpAlice, spec.MRoomPowerLevels, vpStrPtr(""), vpJObj("users", vpJObj(local, localLvl), "invite", inviteLvl))
 	rule := vpChoice("join_rule", spec.Public, spec.Invite, spec.Restricted)
 	var jr PDU
+	// the one allow entry is a room-membership rule, or a rule of a kind this server does not understand (which
+	// admits nobody, whatever room it names)
+	allowType := vpChoice("allow_type", "m.room_membership", "org.example.unknown", "")
 	if rule == spec.Restricted {
-		jr = vpMkEvent(ver, "$jr:x", room, vpAlice, spec.MRoomJoinRules, vpStrPtr(""), vpJObj("join_rule", rule, "allow", vpJArr(vpJObj("type", "m.room_membership", "room_id", "!allowed:local"))))
+		jr = vpMkEvent(ver, "$jr:x", room, vpAlice, spec.MRoomJoinRules, vpStrPtr(""), vpJObj("join_rule", rule, "allow", vpJArr(vpJObj("type", allowType, "room_id", "!allowed:local"))))
 	} else {
 		jr = vpMkEvent(ver, "$jr:x", room, vpAlice, spec.MRoomJoinRules, vpStrPtr(""), vpJObj("join_rule", rule))
 	}
@@ -99,7 +102,7 @@ func vp_C15_make_join() {
 	})
 
 	restrictedApplies := n >= 8 && rule == spec.Restricted && !q.pending
-	vouched := !restrictedApplies || (!q.infoErr && inAllowedRoom && userThere && localLvl >= inviteLvl)
+	vouched := !restrictedApplies || (allowType == "m.room_membership" && !q.infoErr && inAllowedRoom && userThere && localLvl >= inviteLvl)
 	// the template must pass the auth rules: public rooms admit anyone, an invite admits the invited user, a restricted
 	// room admits a vouched-for user; in versions without restricted joins the rule "restricted" is unknown (refused)
 	allowedByRules := rule == spec.Public || q.pending || (rule == spec.Restricted && vouched)
@@ -131,6 +134,8 @@ func vp_C15_make_join() {
 				vpAssert("forbidden-origin", me.ErrCode == spec.ErrorForbidden)
 			case !localInRoom:
 				vpAssert("not-found", me.ErrCode == spec.ErrorNotFound)
+			case restrictedApplies && allowType != "m.room_membership":
+				// no rule this server understands: the error class is not prescribed
 			case restrictedApplies && (q.infoErr || !inAllowedRoom):
 				vpAssert("unable-to-authorise", me.ErrCode == spec.ErrorUnableToAuthoriseJoin)
 			default:
